@@ -1057,6 +1057,8 @@ def _portfolio(self, ob):
             r, dt, s = _check_one(full, ob.goal, budget, pre=(strat == "pre"))
         total += dt
         if r == z3.unsat:
+            if strat in ("qfi", "qfix", "qf") and os.environ.get("VERIF_CROSS_DIR"):
+                _dump_for_cross_check(s, ob, strat)
             return r, total, None, ("plain-fast" if strat == "plain" and budget <= 300 else strat)
         if strat in ("plain", "pre"):
             last = (r, s)
@@ -1064,6 +1066,26 @@ def _portfolio(self, ob):
                 return r, total, s.model(), ""
     r, s = last
     return r, total, None, s.reason_unknown()
+
+
+def _dump_for_cross_check(s, ob, strat):
+    """thorough tier: a sample of the quantifier-free cores that z3 refuted is written out in SMT-LIB 2 for a second solver"""
+    import zlib
+    try:
+        every = int(os.environ.get("VERIF_CROSS_EVERY", "1"))
+        h = zlib.crc32(ob.oid.encode())
+        if h % every:
+            return
+        text = s.to_smt2()
+        if len(text) > 3_000_000:
+            return
+        d = os.environ["VERIF_CROSS_DIR"]
+        os.makedirs(d, exist_ok=True)
+        with open(os.path.join(d, "%08x_%d.smt2" % (h, os.getpid())), "w") as f:
+            f.write("; obligation %s (strategy %s)\n" % (ob.oid, strat))
+            f.write(text)
+    except Exception:
+        pass
 
 
 Verifier._check = _portfolio
